@@ -553,6 +553,42 @@ def main(argv: list[str]) -> int:
     sys.path.insert(0, VERIF)
     os.environ.setdefault("ONNX_IR_PY_VERIF", "1")
     ctx = Ctx(prop, a.tier, seed)
+    # Last-resort watchdog: a check must never hang (e.g. the real code under test loops in the main process).
+    # Far above every normal run time; an expiry is an infrastructure result (exit 2), never a verdict.
+    import threading
+
+    limit = int(os.environ.get("IRVERIF_WATCHDOG_S") or (2400 if a.tier == "quick" else 4 * 3600))
+
+    def _expired():
+        print(f"INFRA property={prop}: watchdog: the check did not finish within {limit}s", file=sys.stderr, flush=True)
+        try:  # kill our descendants (worker processes, model drivers), then leave
+            me = os.getpid()
+            kids = {}
+            for d in os.listdir("/proc"):
+                if d.isdigit():
+                    try:
+                        with open(f"/proc/{d}/stat") as f:
+                            kids.setdefault(int(f.read().rsplit(")", 1)[1].split()[1]), []).append(int(d))
+                    except OSError:
+                        pass
+            todo, seen = [me], set()
+            while todo:
+                for k in kids.get(todo.pop(), []):
+                    if k not in seen:
+                        seen.add(k)
+                        todo.append(k)
+            for k in seen:
+                try:
+                    os.kill(k, 9)
+                except OSError:
+                    pass
+        except Exception:
+            pass
+        os._exit(2)
+
+    _wd = threading.Timer(limit, _expired)
+    _wd.daemon = True
+    _wd.start()
     try:
         mod = importlib.import_module(f"harness.{prop.lower()}")
         if a.replay:
